@@ -1,5 +1,5 @@
-import Txtpp.Model.Text
-/-! Scratch prototype: the tag store (4.4) -/
+import Txtpp.Model.Lines
+/-! The tag store (DESIGN 4.4): model of `core/util/tag_state.rs` and `core/util/string.rs` -/
 namespace Txt
 
 /-- char index of the first occurrence of `k` in `s` -/
@@ -77,5 +77,34 @@ theorem tryStore_inv (t t' : TagState) (c : Str) (hI : TagInv t) (h : t.tryStore
     have := hI.2 tag htag kv (List.mem_filter.1 hkv).1
     rw [related_symm]; exact this
   · simp at h
+
+abbrev Match := Nat × Str × Str
+
+def matchesOf (stored : List (Str × Str)) (line : Str) : List Match :=
+  stored.filterMap (fun kv => (findIdx kv.1 line).map (fun i => (i, kv.1, kv.2)))
+
+/-- stable insertion sort by match position (`to_inject.sort_by(|a, b| a.0.cmp(&b.0))`) -/
+def insertM (a : Match) : List Match → List Match
+  | [] => [a]
+  | b :: bs => if a.1 ≤ b.1 then a :: b :: bs else b :: insertM a bs
+
+def sortM (l : List Match) : List Match := l.foldr insertM []
+
+/-- the `for (i, key, value) in &to_inject` loop of `inject_tags`; `norm` = `replace_line_ending(le, false)` -/
+def injLoop (norm : Str → Str) (line : Str) : List Match → Nat → Str → List Str → Str × List Str
+  | [], lastEnd, acc, rem => (acc ++ line.drop lastEnd, rem)
+  | (i, k, v) :: ms, lastEnd, acc, rem =>
+    if i < lastEnd then injLoop norm line ms lastEnd acc rem
+    else injLoop norm line ms (i + k.length) (acc ++ (line.drop lastEnd).take (i - lastEnd) ++ norm v) (k :: rem)
+
+def TagState.inject (t : TagState) (norm : Str → Str) (line : Str) : Str × TagState :=
+  let r := injLoop norm line (sortM (matchesOf t.stored line)) 0 [] []
+  (r.1, { t with stored := t.stored.filter (fun kv => !r.2.contains kv.1) })
+
+
+/-- the model of `TagState::inject_tags(line, le)` -/
+def TagState.injectLE (t : TagState) (le : Str) (line : Str) : Str × TagState := t.inject (replaceLE le) line
+
+def TagState.empty : TagState := ⟨none, []⟩
 
 end Txt
